@@ -431,6 +431,21 @@ def run_case(case, acc):
             viols.append(("construct_exception", f"Process() raised {e!r}"))
             acc.case(case, nontrivial(case), viols)
             return
+        moved = harness.chash(case)[-2] in "012"
+        if moved:
+            # psutil.PROCFS_PATH is re-pointed after the object was made: the object keeps describing the process of the
+            # procfs it was created on; the tree PROCFS_PATH names from now on has somebody else under the same pid
+            tb = ProcTable(btime=1_700_000_000)
+            tb.spawn(1, 1, ppid=0, comm=b"init")
+            pb = tb.spawn(case["pid"], 500, ppid=1, comm=b"somebody else")
+            pb.statm = tuple(x + 3 for x in case["statm"])
+            pb.smaps = (b"00400000-00401000 r--p 00000000 00:00 0    /other\nSize: 4 kB\nRss: 4 kB\nPss: 4 kB\n"
+                        b"Private_Clean: 4 kB\nPrivate_Dirty: 0 kB\nSwap: 4 kB\n")
+            pb.smaps_rollup = b"00400000-00401000 ---p 00000000 00:00 0    [rollup]\nRss: 4 kB\nPss: 4 kB\nPrivate_Clean: 4 kB\nPrivate_Dirty: 0 kB\nSwap: 4 kB\n"
+            tb.rootfiles["meminfo"] = t.rootfiles["meminfo"]
+            vk.mount("/vprocB", tb)
+            ps.PROCFS_PATH = "/vprocB"
+            acc.count("cases_with_procfs_path_moved_after_construction")
         ctx = pr.oneshot() if case["oneshot"] else contextlib.nullcontext()
         with ctx:
             set_rollup(case["rollup"])
@@ -544,6 +559,9 @@ def run_case(case, acc):
             else:
                 viols.append(("unknown_memtype_not_valueerror",
                               f"memory_percent({case['bad_memtype']!r}) returned {r!r}"))
+        if moved:
+            ps.PROCFS_PATH = "/vproc"
+            viols = [(m + ":procfs_path_moved_after_construction", d) for m, d in viols]
     acc.case(case, nontrivial(case), viols)
 
 
